@@ -46,7 +46,10 @@ Definition instant_ok (t : instant) : Prop :=
 Record key_descriptor := {
   kd_use : string;
   kd_cert : string;              (* X509Certificate text: base64 of the certificate bytes *)
-  kd_methods : list string       (* EncryptionMethod Algorithm values (DigestMethod is nil for all of them) *)
+  kd_methods : list string;      (* EncryptionMethod Algorithm values (DigestMethod is nil for all of them) *)
+  (* the complete shape of the Go value (not rendered by [kd_val]; what the translated source, GenMeta.v, is compared on) *)
+  kd_key_info : list string;                 (* KeyInfo.X509Data.X509Certificates: every Data text, in order; kd_cert is the first *)
+  kd_method_digests : list (option string)   (* DigestMethod of every EncryptionMethod, in order; None = nil *)
 }.
 
 Record entity_descriptor := {
@@ -57,7 +60,8 @@ Record entity_descriptor := {
   ed_protocol : string;                              (* protocolSupportEnumeration *)
   ed_key_descriptors : list key_descriptor;
   ed_acs : list (string * string * Z);               (* AssertionConsumerService: Binding, Location, index *)
-  ed_slo : list (string * string)                    (* SingleLogoutService: Binding, Location *)
+  ed_slo : list (string * string);                   (* SingleLogoutService: Binding, Location *)
+  ed_spsso_present : bool                            (* SPSSODescriptor != nil (its fields are kept inline above; not in [ed_val]) *)
 }.
 
 Record md_config := {
@@ -73,9 +77,11 @@ Definition use_signing : string := "signing".
 Definition use_encryption : string := "encryption".
 
 Definition signing_descriptor (cert : string) : key_descriptor :=
-  {| kd_use := use_signing; kd_cert := base64_encode cert; kd_methods := [] |}.
+  {| kd_use := use_signing; kd_cert := base64_encode cert; kd_methods := [];
+     kd_key_info := [base64_encode cert]; kd_method_digests := [] |}.
 Definition encryption_descriptor (methods : list string) (cert : string) : key_descriptor :=
-  {| kd_use := use_encryption; kd_cert := base64_encode cert; kd_methods := methods |}.
+  {| kd_use := use_encryption; kd_cert := base64_encode cert; kd_methods := methods;
+     kd_key_info := [base64_encode cert]; kd_method_digests := map (fun _ => None) methods |}.
 
 Definition descriptor (c : md_config) (valid_until : instant) (kds : list key_descriptor) (slo : bool) : entity_descriptor :=
   {| ed_valid_until := valid_until;
@@ -85,7 +91,8 @@ Definition descriptor (c : md_config) (valid_until : instant) (kds : list key_de
      ed_protocol := c_SAMLProtocolNamespace;
      ed_key_descriptors := kds;
      ed_acs := [(c_BindingHttpPost, mc_acs_url c, 1)];
-     ed_slo := if slo then [(c_BindingHttpPost, mc_slo_url c)] else [] |}.
+     ed_slo := if slo then [(c_BindingHttpPost, mc_slo_url c)] else [];
+     ed_spsso_present := true |}.
 
 (* ---------- saml.go: Metadata (CURRENT code) ---------- *)
 Definition metadata (c : md_config) (now : instant) : res entity_descriptor :=
